@@ -58,6 +58,9 @@ struct St {
     ext: bool,
     /// document index of a fragment -> index of the document that created it
     frag_owner: HashMap<usize, usize>,
+    /// one XPath evaluation context per case, re-used by every `Q` op across the edits (a caller
+    /// may keep its Context): its answers must be those of a fresh context
+    xctx: xml_xpath::eval::model::Context,
 }
 
 fn item_of(n: &XmlNode) -> Option<Rc<info::XmlItem>> {
@@ -763,9 +766,13 @@ fn ranks(doc: &dom::XmlDocument, skip_empty: bool) -> HashMap<(String, usize), u
 
 /// (ranks of the selected nodes, the same ignoring empty merged text nodes)
 fn query_ranks(doc: &dom::XmlDocument, expr: &str) -> (String, String) {
+    let mut ctx = xml_xpath::eval::model::Context::default();
+    query_ranks_ctx(doc, expr, &mut ctx)
+}
+
+fn query_ranks_ctx(doc: &dom::XmlDocument, expr: &str, ctx: &mut xml_xpath::eval::model::Context) -> (String, String) {
     let r = catch_unwind(AssertUnwindSafe(|| {
-        let mut ctx = xml_xpath::eval::model::Context::default();
-        match xml_xpath::query(doc.clone(), expr, &mut ctx) {
+        match xml_xpath::query(doc.clone(), expr, ctx) {
             Ok(xml_xpath::eval::model::Value::Node(ns)) => {
                 let show = |skip: bool| {
                     let m = ranks(doc, skip);
@@ -918,6 +925,10 @@ fn run_op(st: &mut St, op: &str) -> Res {
             let expr = s(2);
             st.set_view(true);
             let a = query_ranks(&d, &expr);
+            // the same query with the context that earlier Q ops of this case have used
+            let mut shared = std::mem::take(&mut st.xctx);
+            let sc = query_ranks_ctx(&d, &expr, &mut shared);
+            st.xctx = shared;
             let text = d.to_string();
             st.set_view(false);
             let b = match dom::XmlDocument::from_raw_with_context(
@@ -933,8 +944,8 @@ fn run_op(st: &mut St, op: &str) -> Res {
             let has_empty = ranks(&d, false).len() != ranks(&d, true).len();
             st.set_view(false);
             Res::Query(format!(
-                "q:{}/{};{}/{};e{}",
-                a.0, b.0, a.1, b.1, has_empty as u8
+                "q:{}/{};{}/{};e{};s{}",
+                a.0, b.0, a.1, b.1, has_empty as u8, sc.0
             ))
         }
         _ => Res::Na,
@@ -958,7 +969,7 @@ pub fn case(line: &str) -> String {
     if w.len() < 2 + nd {
         return "badinput".to_string();
     }
-    let mut st = St { docs: vec![], hs: vec![], index: HashMap::new(), ext, frag_owner: HashMap::new() };
+    let mut st = St { docs: vec![], hs: vec![], index: HashMap::new(), ext, frag_owner: HashMap::new(), xctx: xml_xpath::eval::model::Context::default() };
     for k in 0..nd {
         let text = match dec(w[2 + k]) {
             Some(t) => t,
